@@ -363,6 +363,14 @@ def _sib1(ctx):
     return r
 
 
+def _sib2(ctx, which='geodesic'):
+    from .rules import sibling
+    r, npairs, ndeps = sibling.rule_SIB2(ctx, which)
+    r.floor('sibling pairs with common statements', npairs, 10 if which == 'geodesic' else 1)
+    r.floor('dependent statement pairs', ndeps, 300 if which == 'geodesic' else 150)
+    return r
+
+
 def _c01(ctx):
     from .rules import mask
     m1, n1 = mask.rule_M1(ctx)
@@ -372,7 +380,7 @@ def _c01(ctx):
                  '(and the delegated solver never used when it was not built); line state only after Init()',
                  {'GenDirect', 'GenDirectLine', 'Line', 'DirectLine', 'ArcDirectLine', 'LineInit', 'GenPosition',
                   'A3f', 'C3f', 'C4f'}, 8),
-            m1, _m8(ctx), _m8b(ctx), _sib1(ctx)]
+            m1, _m8(ctx), _m8b(ctx), _sib1(ctx), _sib2(ctx)]
 
 
 def _c02(ctx):
@@ -383,7 +391,7 @@ def _c02(ctx):
                  'exact-delegation / conditional-initialisation licence on the inverse path (GenInverse, InverseLine, '
                  'Lengths, InverseStart, Lambda12): no conditionally initialised value reaches an output or a branch',
                  {'GenInverse', 'InverseLine', 'Lengths', 'InverseStart', 'Lambda12', 'A3f', 'C3f', 'C4f'}, 10),
-            r6, _m8(ctx), _m8b(ctx), _sib1(ctx)]
+            r6, _m8(ctx), _m8b(ctx), _sib1(ctx), _sib2(ctx)]
 
 
 def _c03(ctx):
@@ -400,7 +408,7 @@ def _c03(ctx):
     return [_t1(ctx, 'geodesic', {'A2m1f', 'C2f', 'C4coeff'}, 60), m2, m4, m7,
             _lic(ctx, ['GeodesicLine', 'GeodesicLineExact'], 'M3',
                  'capability licence: m12/M12/M21/S12 are computed only from line state the capabilities initialised',
-                 {'GenPosition'}, 2), _m8b(ctx), _sib1(ctx)]
+                 {'GenPosition'}, 2), _m8b(ctx), _sib1(ctx), _sib2(ctx)]
 
 
 def _c06(ctx):
@@ -440,7 +448,7 @@ def _c12(ctx):
     m7.floor('mask-gated placeholders', nc7, 3)
     m9, n9 = licrules.rule_M9(ctx)
     m9.floor('mask selections', n9, 6)
-    return [m1, m2, m2c, m4, lic, m4c, m6, m7, _m8(ctx), _m8b(ctx), _sib1(ctx), m9]
+    return [m1, m2, m2c, m4, lic, m4c, m6, m7, _m8(ctx), _m8b(ctx), _sib1(ctx), _sib2(ctx), m9]
 
 
 def _c09(ctx):
@@ -479,7 +487,7 @@ def _c08(ctx):
     cons.floor('kernels (Math::sum, Accumulator)', nk, 8)
     m9, n9 = licrules.rule_M9(ctx)
     m9.floor('mask selections in the solvers the polygon calls', n9, 6)
-    return [p1, poly.rule_P2(ctx), poly.rule_P3(ctx), poly.rule_P4(ctx), poly.rule_P5(ctx), m7, area, cons, _m8b(ctx), _sib1(ctx), m9]
+    return [p1, poly.rule_P2(ctx), poly.rule_P3(ctx), poly.rule_P4(ctx), poly.rule_P5(ctx), m7, area, cons, _m8b(ctx), _sib1(ctx), _sib2(ctx), m9]
 
 
 def _c17(ctx):
@@ -557,7 +565,10 @@ def _c19(ctx):
     from .rules import caps
     cap, ncap = caps.rule_CAP1(ctx)
     cap.floor('engine evaluations and guarded scalars in GravityCircle', ncap, 4)
-    return [dsp, i1, cap] + _exc_rules(ctx, 'C19', with_lookup=False) + [r6, _x2v(ctx)]
+    from .rules import sibling
+    s1h, np1, nn1 = sibling.rule_SIB1(ctx, 'harmonic')
+    s1h.floor('assigned names compared between SphericalEngine::Value and Circle', nn1, 20)
+    return [dsp, i1, cap, s1h, _sib2(ctx, 'harmonic')] + _exc_rules(ctx, 'C19', with_lookup=False) + [r6, _x2v(ctx)]
 
 
 def _c20(ctx):
